@@ -57,7 +57,7 @@ package service
 //@   ensures[readonly-within-log] its.isReadOnly ==> its.currentCP.Sseq <= G.stored
 //@   ensures[cseq-untouched] its.currentCP.Cseq == old(its.currentCP.Cseq)
 //@   ensures[request-untouched] its.gotPushPullPack.CheckPoint.Sseq == old(its.gotPushPullPack.CheckPoint.Sseq)
-//@   modifies model.CheckPoint.Sseq, model.PushPullPack.Operations
+//@   modifies model.CheckPoint.Sseq, model.PushPullPack.Operations, G:lastFrom
 
 // commitToMongoDB: the recorded end of the log and the reply's checkpoint are the handler's
 // current checkpoint; operations are stored BEFORE the datatype document that acknowledges them.
